@@ -1,5 +1,7 @@
 import TnVerif.Lemmas.Dot
 import TnVerif.Props.C02
+import TnVerif.Props.C03
+import TnVerif.Lemmas.Squeeze
 /-!
 # C06 — norms, inner products and statistics equal their dense definitions
 
@@ -89,5 +91,419 @@ theorem dist_sq (t u : Tensor R) (ht : t.WF) (hu : u.WF) (hs : t.shape = u.shape
   congr 1; funext idx; ring
 
 end ring
+
+/-! ## sums and means over subsets of modes, variance, metric laws of `dist` (extension) -/
+
+section squeeze
+variable [CommSemiring R]
+
+/-- **the squeeze step** (`tn.squeeze(result, dims)`, i.e. `result[0 at the listed modes, : elsewhere]`): for a
+    well-formed tensor whose listed modes have size one the indexing never fails; if every mode is listed the
+    result is the scalar entry at `(0,…,0)`, otherwise it is a well-formed tensor whose shape is the original shape with
+    exactly the listed modes deleted and whose entries are the original entries (index `0` re-inserted at the
+    deleted modes). -/
+theorem getitem_squeeze (u : Tensor R) (hu : u.WF) (dims : List Bool) (hd : dims.length = u.length)
+    (h1 : flaggedOne dims u.shape) :
+    (dims.all id = true → u.getitem (squeezeKey dims) = .ok (.inr (u.dense (List.replicate u.length 0)))) ∧
+    (dims.all id = false → ∃ v : Tensor R, u.getitem (squeezeKey dims) = .ok (.inl v) ∧ v.WF ∧
+      v.shape = keepShape dims u.shape ∧
+      ∀ out, out.length = v.length → v.dense out = u.dense (fillIdx dims out)) := by
+  have hp : processKey u.length (squeezeKey dims) = .ok (squeezeKey dims) := by
+    rw [← hd]; exact processKey_squeeze dims
+  have hsl : dims.length = u.shape.length := by rw [shape_length]; exact hd
+  have hn : normKey (squeezeKey dims) u.shape = .ok (sqItems dims u.shape) := normKey_squeeze dims u.shape hsl h1
+  obtain ⟨lastRR, hfin⟩ := getitem_unfold u _ _ _ hp hn
+  obtain ⟨r, hr1, hr2, hr3⟩ := goKey_sq (R := R) lastRR dims u false Option.none hd
+  have hwfr : ∀ m l, r.1 = m :: l → Tensor.WF (m :: l) := by
+    intro m l hml
+    cases u with
+    | nil => exact absurd hu (by simp [Tensor.WF])
+    | cons m0 rest =>
+      have := (goKey_sq_wf lastRR dims (m0 :: rest) false Option.none m0.core.rl r hd hu (by intro q hq; cases hq) hr1).1
+      rw [hml] at this
+      simp only [rowdim] at this
+      exact ⟨rfl, this.2.1, this.2.2⟩
+  rw [← groupKey_sq] at hr1
+  have hg := hfin r hr1
+  have hkl := keepShape_length dims u.shape hsl
+  constructor
+  · intro hall
+    have hks := (keepShape_eq_nil dims u.shape hsl).mpr hall
+    have hk : r.1 = [] := by rw [hks] at hr2; simpa [Tensor.shape] using hr2
+    have hkc : keepCount dims = 0 := by rw [← hkl, hks]; rfl
+    have hne : dims ≠ [] := by
+      intro h; subst h
+      cases u with
+      | nil => simp [Tensor.WF] at hu
+      | cons _ _ => simp at hd
+    obtain ⟨l, q⟩ := r
+    simp only at hk; subst hk
+    have hq := hr3 rfl (Or.inr hne)
+    cases q with
+    | none => simp at hq
+    | some q =>
+      simp only [finishKey] at hg
+      have hf : fits (groupKey (sqItems dims u.shape)) u.length 0 := by
+        rw [groupKey_sq, ← hd, ← hkc]; exact fits_sq dims u.shape hsl
+      have hx := C03.getitem_scalar u hu _ _ _ hp hn q.total hg hf
+      rw [hg, hx, groupKey_sq, srcIdx_sq dims u.shape [] hsl (by simp [hkc]), fillIdx_all dims hall, hd]
+  · intro hnot
+    have hks : keepShape dims u.shape ≠ [] := by
+      intro h; have := (keepShape_eq_nil dims u.shape hsl).mp h; rw [this] at hnot; cases hnot
+    obtain ⟨l, q⟩ := r
+    cases l with
+    | nil => exact absurd hr2.symm hks
+    | cons m l =>
+      simp only [finishKey] at hg
+      refine ⟨m :: l, hg, hwfr m l rfl, hr2, ?_⟩
+      intro out ho
+      have hol : out.length = keepCount dims := by
+        rw [ho, ← hkl, ← hr2, shape_length]
+      have hf : fits (groupKey (sqItems dims u.shape)) u.length out.length := by
+        rw [groupKey_sq, ← hd, hol]; exact fits_sq dims u.shape hsl
+      rw [C03.getitem_tensor u hu _ _ _ hp hn m l hg out hf, groupKey_sq, srcIdx_sq dims u.shape out hsl hol]
+
+/-- a keepdim reduction (`tn.ttm` with one-row matrices on the listed modes) followed by `tn.squeeze` -/
+theorem squeeze_rows (g : Nat → Nat → Nat → R) (t : Tensor R) (ht : t.WF) (dims : List Bool) (hd : dims.length = t.length)
+    (k : Tensor R)
+    (hk : k = t.linModes (List.zipWith (fun b (m : TMode R) => if b then some (1, g m.n) else Option.none) dims t)) :
+    (dims.all id = true → k.getitem (squeezeKey dims) = .ok (.inr (k.dense (List.replicate t.length 0)))) ∧
+    (dims.all id = false → ∃ v : Tensor R, k.getitem (squeezeKey dims) = .ok (.inl v) ∧ v.WF ∧
+      v.shape = keepShape dims t.shape ∧
+      ∀ out, out.length = v.length → (fillIdx dims out).length = t.length ∧ v.dense out = k.dense (fillIdx dims out)) := by
+  have hkw : k.WF := by rw [hk]; exact WF_linModes_sq t _ ht
+  have hkl : k.length = t.length := by rw [hk]; exact length_linModes t _
+  have hks : k.shape = oneShape dims t.shape := by rw [hk]; exact shape_linModes_row g t dims
+  obtain ⟨a, b⟩ := getitem_squeeze k hkw dims (by rw [hkl]; exact hd) (by rw [hks]; exact flaggedOne_oneShape dims t.shape)
+  rw [hkl] at a
+  refine ⟨a, ?_⟩
+  intro hnot
+  obtain ⟨v, h1, hw, h2, h3⟩ := b hnot
+  rw [hks, keepShape_oneShape] at h2
+  refine ⟨v, h1, hw, h2, fun out ho => ⟨?_, h3 out ho⟩⟩
+  rw [fillIdx_length dims out, hd]
+  rw [ho, ← shape_length, h2, keepShape_length dims t.shape (by rw [shape_length]; exact hd)]
+
+/-- **sums over modes (keepdim), explicit form**: entry `idx` of `tn.sum(t, dims, keepdim=True)` is the sum of the
+    dense array over exactly the listed modes, the other indices being those of `idx` -/
+theorem sumKeep_sumOver (t : Tensor R) (dims : List Bool) (idx : List Nat) (hd : dims.length = t.length)
+    (hi : idx.length = t.length) :
+    (t.sumKeep dims).dense idx = sumOver dims t.shape t.dense idx := by
+  rw [sumKeep_dense t dims idx hd hi]
+  have hz := zipWith_modes (R := R) (fun b _ => if b then some (1, fun _ _ => (fun _ => (1 : R)) 0) else Option.none) dims t
+  have hz' : List.zipWith (fun b (_ : TMode R) => if b then some (1, onesL (R := R)) else Option.none) dims t =
+      List.zipWith (fun b n => if b then some (1, fun _ _ => (fun _ => (1 : R)) n) else Option.none) dims t.shape := hz
+  rw [hz', applyMaps_const (fun _ => (1 : R)) dims t.shape t.dense idx (by rw [hi, shape_length]), cprod_one, one_mul]
+
+/-- `tn.sum(t, dims, keepdim=True)` is well formed; its shape is the original one with the summed modes set to 1 -/
+theorem sumKeep_wf_shape (t : Tensor R) (ht : t.WF) (dims : List Bool) :
+    (t.sumKeep dims).WF ∧ (t.sumKeep dims).shape = oneShape dims t.shape :=
+  ⟨WF_linModes_sq t _ ht, shape_linModes_row (fun _ => onesL) t dims⟩
+
+/-- **`tn.sum(t)` over all modes** is the scalar `Σ_idx t[idx]` -/
+theorem sum_all (t : Tensor R) (ht : t.WF) : t.sum (allDims t) = .ok (.inr (boxSum t.shape t.dense)) := by
+  have hd := allDims_length t
+  obtain ⟨a, _⟩ := squeeze_rows (fun _ => onesL) t ht (allDims t) hd (t.sumKeep (allDims t)) rfl
+  unfold Tensor.sum
+  rw [a (allDims_all t), sumKeep_sumOver t _ _ hd (by simp), allDims_eq, sumOver_all _ _ _ (by simp [shape_length])]
+
+/-- **summing over a mode removes exactly that mode**: `tn.sum(t, dims)` for a proper subset of the modes never
+    fails and returns a well-formed tensor whose shape is the shape of `t` with exactly the summed modes deleted; its entry at
+    `out` is the dense array summed over the listed modes with the remaining indices taken from `out`. -/
+theorem sum_removes_modes (t : Tensor R) (ht : t.WF) (dims : List Bool) (hd : dims.length = t.length)
+    (hnot : dims.all id = false) :
+    ∃ v : Tensor R, t.sum dims = .ok (.inl v) ∧ v.WF ∧ v.shape = keepShape dims t.shape ∧
+      ∀ out, out.length = v.length → v.dense out = sumOver dims t.shape t.dense (fillIdx dims out) := by
+  obtain ⟨_, b⟩ := squeeze_rows (fun _ => onesL) t ht dims hd (t.sumKeep dims) rfl
+  obtain ⟨v, h1, hw, h2, h3⟩ := b hnot
+  refine ⟨v, h1, hw, h2, fun out ho => ?_⟩
+  obtain ⟨hl, hv⟩ := h3 out ho
+  rw [hv, sumKeep_sumOver t dims _ hd hl]
+
+end squeeze
+section means
+variable [Field R]
+
+/-- the normalised `tn.ttm` of `tn.sum(…, _normalize=True)`: entry `idx` is the dense array averaged over exactly the
+    listed modes (sum over those modes divided by the product of their sizes) -/
+theorem meanRows_dense (t : Tensor R) (dims : List Bool) (idx : List Nat) (hd : dims.length = t.length)
+    (hi : idx.length = t.length) :
+    (t.meanRows dims).dense idx = sumOver dims t.shape t.dense idx / ((cntOver dims t.shape : Nat) : R) := by
+  unfold Tensor.meanRows Tensor.ttm Tensor.dense
+  rw [dense_linModes t _ idx (by simp [hd]) hi]
+  have hz : List.zipWith (fun b (m : TMode R) => if b then some (1, meanL (R := R) m.n) else Option.none) dims t =
+      List.zipWith (fun b n => if b then some (1, fun _ _ => (fun n => (1 / natR n : R) * 1) n) else Option.none) dims t.shape :=
+    zipWith_modes (R := R) (fun b n => if b then some (1, fun _ _ => (fun n => (1 / natR n : R) * 1) n) else Option.none) dims t
+  rw [hz, applyMaps_const (fun n => (1 / natR n : R) * 1) dims t.shape _ idx (by rw [hi, shape_length]), cprod_inv,
+    inv_mul_eq_div]
+
+/-- **`tn.mean(t, dims, keepdim=True)`** (no listed mode is empty): succeeds with a well-formed tensor whose shape is
+    the original one with the averaged modes set to 1; entry `idx` is the dense array averaged over exactly the
+    listed modes, the other indices being those of `idx` -/
+theorem meanKeep_dense (t : Tensor R) (ht : t.WF) (dims : List Bool) (hd : dims.length = t.length)
+    (hz : flaggedZero dims t.shape = false) :
+    ∃ k : Tensor R, t.meanKeep dims = .ok k ∧ k.WF ∧ k.shape = oneShape dims t.shape ∧
+      ∀ idx, idx.length = t.length →
+        k.dense idx = sumOver dims t.shape t.dense idx / ((cntOver dims t.shape : Nat) : R) := by
+  refine ⟨t.meanRows dims, by simp [Tensor.meanKeep, hz], WF_linModes_sq t _ ht, shape_linModes_row (fun n => meanL n) t dims, ?_⟩
+  intro idx hi
+  exact meanRows_dense t dims idx hd hi
+
+/-- **an empty listed mode makes `tn.mean` raise** (`1.0 / t.shape[d]`, `ZeroDivisionError`), with or without keepdim -/
+theorem mean_raises (t : Tensor R) (dims : List Bool) (hz : flaggedZero dims t.shape = true) :
+    t.meanKeep dims = .error .zeroDivision ∧ t.mean dims = .error .zeroDivision := by
+  have h : t.meanKeep dims = .error .zeroDivision := by simp [Tensor.meanKeep, hz]
+  exact ⟨h, by simp [Tensor.mean, h, bind, Except.bind]⟩
+
+/-- **`tn.mean(t)`** (all modes, no marginals, no empty mode) is the scalar `(Σ_idx t[idx]) / numel` -/
+theorem mean_dense (t : Tensor R) (ht : t.WF) (hpos : ∀ n ∈ t.shape, 0 < n) :
+    t.mean (allDims t) = .ok (.inr (boxSum t.shape t.dense / ((t.shape.prod : Nat) : R))) := by
+  have hd := allDims_length t
+  have hz := flaggedZero_pos (allDims t) t.shape hpos
+  obtain ⟨a, _⟩ := squeeze_rows (fun n => meanL n) t ht (allDims t) hd (t.meanRows (allDims t)) rfl
+  simp only [Tensor.mean, Tensor.meanKeep, hz, Bool.false_eq_true, if_false, bind, Except.bind]
+  rw [a (allDims_all t)]
+  simp only
+  rw [meanRows_dense t (allDims t) (List.replicate t.length 0) hd (by simp), allDims_eq,
+    sumOver_all _ _ _ (by simp [shape_length]), cntOver_all]
+
+/-- **`tn.mean(t, dims)`** over a proper subset of the modes (none of them empty): never fails; the result is well
+    formed, has the shape of `t` with exactly the averaged modes deleted, and its entries are the averages over
+    those modes -/
+theorem mean_subset_dense (t : Tensor R) (ht : t.WF) (dims : List Bool) (hd : dims.length = t.length)
+    (hz : flaggedZero dims t.shape = false) (hnot : dims.all id = false) :
+    ∃ v : Tensor R, t.mean dims = .ok (.inl v) ∧ v.WF ∧ v.shape = keepShape dims t.shape ∧
+      ∀ out, out.length = v.length →
+        v.dense out = sumOver dims t.shape t.dense (fillIdx dims out) / ((cntOver dims t.shape : Nat) : R) := by
+  obtain ⟨_, b⟩ := squeeze_rows (fun n => meanL n) t ht dims hd (t.meanRows dims) rfl
+  obtain ⟨v, h1, hw, h2, h3⟩ := b hnot
+  refine ⟨v, ?_, hw, h2, fun out ho => ?_⟩
+  · simp only [Tensor.mean, Tensor.meanKeep, hz, Bool.false_eq_true, if_false, bind, Except.bind]
+    rw [h1]
+  · obtain ⟨hl, hv⟩ := h3 out ho
+    rw [hv, meanRows_dense t dims _ hd hl]
+
+/-! ### marginals -/
+
+/-- facts about `t * pdf` used by the weighted statistics -/
+theorem mul_pdf (t : Tensor R) (ht : t.WF) (margs : List (Option (Nat × (Nat → R)))) (hm : margsFit t.shape margs) :
+    (t.mul (pdfT t.shape margs)).WF ∧ (t.mul (pdfT t.shape margs)).shape = t.shape ∧
+    (t.mul (pdfT t.shape margs)).length = t.length ∧
+    ∀ js, js.length = t.length → (t.mul (pdfT t.shape margs)).dense js = t.dense js * margW margs js := by
+  have hne : t.shape ≠ [] := by
+    intro h; cases t with
+    | nil => simp [Tensor.WF] at ht
+    | cons _ _ => simp [Tensor.shape] at h
+  have hpw := WF_pdfT t.shape margs hne
+  have hps := shape_pdfT t.shape margs hm
+  obtain ⟨w, s⟩ := C02.mul_wf_shape t _ ht hpw hps.symm
+  refine ⟨w, s, by rw [← shape_length, s, shape_length], fun js hjs => ?_⟩
+  rw [C02.mul_dense t _ ht hpw hps.symm]
+  unfold Tensor.dense
+  rw [dense_pdfT t.shape margs js hne (by rw [hjs, shape_length])]
+
+/-- **`tn.mean(t, dims, marginals, keepdim=True)`**: the dense array times the product of the normalised marginal
+    weights, summed over exactly the listed modes.  (`margW` divides by `Σ w`; for a marginal vector that sums to
+    zero Lean's `x / 0 = 0` is not what PyTorch returns (`inf`/`nan`), so the marginal statements are meaningful
+    for marginals with non-zero sum — for those `C10.normW_sum` says the weights of a mode sum to one.) -/
+theorem meanMargKeep_dense (t : Tensor R) (ht : t.WF) (dims : List Bool) (margs : List (Option (Nat × (Nat → R))))
+    (hm : margsFit t.shape margs) (idx : List Nat) (hd : dims.length = t.length) (hi : idx.length = t.length) :
+    (t.meanMargKeep dims margs).dense idx = sumOver dims t.shape (fun js => t.dense js * margW margs js) idx := by
+  obtain ⟨_, s, l, d⟩ := mul_pdf t ht margs hm
+  unfold Tensor.meanMargKeep
+  rw [sumKeep_sumOver _ dims idx (by rw [l]; exact hd) (by rw [l]; exact hi), s]
+  exact sumOver_congr_len dims t.shape _ _ idx (by rw [hi, shape_length]) (fun js hjs => d js (by rw [hjs, shape_length]))
+
+/-- **`tn.mean(t, marginals=…)`** over all modes is the scalar `Σ_idx t[idx] · Π_n w_n[idx_n] / Σ w_n`
+    (modes without a marginal vector are summed unweighted) -/
+theorem mean_marginals_dense (t : Tensor R) (ht : t.WF) (margs : List (Option (Nat × (Nat → R))))
+    (hm : margsFit t.shape margs) :
+    t.meanMarg (allDims t) margs = .ok (.inr (boxSum t.shape (fun js => t.dense js * margW margs js))) := by
+  obtain ⟨w, s, l, d⟩ := mul_pdf t ht margs hm
+  unfold Tensor.meanMarg
+  have hall : allDims t = allDims (t.mul (pdfT t.shape margs)) := by
+    rw [allDims_eq, allDims_eq, s]
+  rw [hall, sum_all _ w, s]
+  congr 2
+  exact boxSum_congr_in_st t.shape _ _ (fun js hjs => d js (by rw [inShape_length js _ hjs, shape_length]))
+
+/-- **`tn.mean(t, dims, marginals)`** over a proper subset of the modes: the result has exactly the listed modes
+    deleted and holds the weighted sums over them -/
+theorem mean_marginals_subset_dense (t : Tensor R) (ht : t.WF) (dims : List Bool) (margs : List (Option (Nat × (Nat → R))))
+    (hm : margsFit t.shape margs) (hd : dims.length = t.length) (hnot : dims.all id = false) :
+    ∃ v : Tensor R, t.meanMarg dims margs = .ok (.inl v) ∧ v.WF ∧ v.shape = keepShape dims t.shape ∧
+      ∀ out, out.length = v.length →
+        v.dense out = sumOver dims t.shape (fun js => t.dense js * margW margs js) (fillIdx dims out) := by
+  obtain ⟨w, s, l, d⟩ := mul_pdf t ht margs hm
+  obtain ⟨v, h1, hvw, h2, h3⟩ := sum_removes_modes _ w dims (by rw [l]; exact hd) hnot
+  refine ⟨v, h1, hvw, by rw [h2, s], fun out ho => ?_⟩
+  rw [h3 out ho, s]
+  have hkl := keepShape_length dims t.shape (by rw [shape_length]; exact hd)
+  have hfl : (fillIdx dims out).length = t.shape.length := by
+    rw [fillIdx_length dims out (by rw [ho, ← shape_length, h2, s, hkl]), hd, shape_length]
+  exact sumOver_congr_len dims t.shape _ _ _ hfl (fun js hjs => d js (by rw [hjs, shape_length]))
+
+/-! ### variance -/
+
+/-- **`tn.var(t)`** (no empty mode) never fails and equals `(1/numel) · Σ_idx (t[idx] − μ)²` with
+    `μ = (Σ_idx t[idx]) / numel` the dense mean -/
+theorem var_dense (t : Tensor R) (ht : t.WF) (hpos : ∀ n ∈ t.shape, 0 < n) :
+    t.var = .ok (boxSum t.shape (fun idx =>
+        (t.dense idx - boxSum t.shape t.dense / ((t.shape.prod : Nat) : R)) *
+        (t.dense idx - boxSum t.shape t.dense / ((t.shape.prod : Nat) : R))) / ((t.shape.prod : Nat) : R)) := by
+  unfold Tensor.var
+  rw [mean_dense t ht hpos]
+  simp only [bind, Except.bind, pure, Except.pure]
+  obtain ⟨w, s⟩ := C02.scalarAdd_wf_shape (-1 * (boxSum t.shape t.dense / ((t.shape.prod : Nat) : R))) t ht
+  rw [normsq_eq _ w, s, numelR_eq]
+  congr 2
+  apply boxSum_congr_in_st
+  intro is his
+  rw [C02.scalarAdd_dense _ t ht is (by rw [inShape_length is _ his, shape_length])]
+  ring
+
+/-- **`tn.var(t)` of a tensor with an empty mode raises** (`ZeroDivisionError` inside `tn.mean`) instead of
+    returning `nan` like `torch.var` -/
+theorem var_raises (t : Tensor R) (h0 : 0 ∈ t.shape) : t.var = .error .zeroDivision := by
+  have hz : flaggedZero (allDims t) t.shape = true := by rw [allDims_eq]; exact flaggedZero_all t.shape h0
+  simp [Tensor.var, (mean_raises t (allDims t) hz).2, bind, Except.bind]
+
+/-- **`tn.var(t, marginals)`** never fails (one marginal vector per mode, each of its mode's length) and equals
+    `Σ_idx W[idx] · (t[idx] − μ)²` with `W[idx] = Π_n w_n[idx_n] / Σ w_n` and `μ = Σ_idx W[idx] · t[idx]` -/
+theorem var_marginals_dense (t : Tensor R) (ht : t.WF) (margs : List (Nat × (Nat → R))) (hl : margs.length = t.length)
+    (hm : margsFit t.shape (margs.map some)) :
+    t.varMarg margs = .ok (boxSum t.shape (fun idx =>
+        (t.dense idx - boxSum t.shape (fun js => t.dense js * margW (margs.map some) js)) *
+        (t.dense idx - boxSum t.shape (fun js => t.dense js * margW (margs.map some) js)) *
+          margW (margs.map some) idx)) := by
+  unfold Tensor.varMarg
+  rw [if_neg (by simp [hl]), mean_marginals_dense t ht _ hm]
+  simp only
+  rw [← pdfT_all t.shape margs (by rw [hl, shape_length])]
+  generalize boxSum t.shape (fun js => t.dense js * margW (margs.map some) js) = μ
+  obtain ⟨w, s⟩ := C02.scalarAdd_wf_shape (-1 * μ) t ht
+  have hm' : margsFit (t.scalarAdd (-1 * μ)).shape (margs.map some) := by rw [s]; exact hm
+  obtain ⟨w2, s2, _, d2⟩ := mul_pdf _ w (margs.map some) hm'
+  rw [s] at s2 d2
+  have hlen : (t.scalarAdd (-1 * μ)).length = t.length := by rw [← shape_length, s, shape_length]
+  rw [s] at w2
+  rw [dot_eq _ _ w2 w (by rw [s2, s]), s2]
+  congr 1
+  apply boxSum_congr_in_st
+  intro is his
+  have hil : is.length = t.length := by rw [inShape_length is _ his, shape_length]
+  rw [d2 is (by rw [hil, hlen]), C02.scalarAdd_dense _ t ht is hil]
+  ring
+
+end means
+
+/-! ### `dist` is a metric (on the squared distance `‖t‖² + ‖u‖² − 2⟨t,u⟩` that `tn.dist` clamps and takes the root of) -/
+section metric
+
+/-- the squared distance is symmetric -/
+theorem distsq_symm [CommRing R] (t u : Tensor R) (ht : t.WF) (hu : u.WF) (hs : t.shape = u.shape) :
+    t.normsq + u.normsq - 2 * t.dot u = u.normsq + t.normsq - 2 * u.dot t := by
+  rw [dot_comm t u ht hu hs]; ring
+
+
+/-- **`dist` equals the norm of the difference**: the radicand `‖t‖² + ‖u‖² − 2⟨t,u⟩` is `‖t − u‖²` computed on the
+    compressed difference, whatever the sign of the inner product -/
+theorem distsq_eq_normsq_sub [CommRing R] (t u : Tensor R) (ht : t.WF) (hu : u.WF) (hs : t.shape = u.shape) :
+    t.normsq + u.normsq - 2 * t.dot u = (t.sub u).normsq := by
+  have hw : (t.sub u).WF ∧ (t.sub u).shape = t.shape := by
+    unfold Tensor.sub Tensor.neg
+    exact C02.add_wf_shape t _ ht (WF_scalarMul _ _ u hu) (by rw [shape_scalarMul]; exact hs)
+  rw [dist_sq t u ht hu hs, normsq_eq _ hw.1, hw.2]
+  apply boxSum_congr_in_st
+  intro is his
+  rw [C02.sub_dense t u ht hu hs is (by rw [inShape_length is _ his, shape_length])]
+
+variable [CommRing R] [LinearOrder R] [IsStrictOrderedRing R]
+
+/-- the radicand of `tn.dist` is never negative in exact arithmetic: the `clamp(0)` (metrics.py:131-133) is the identity -/
+theorem distsq_nonneg (t u : Tensor R) (ht : t.WF) (hu : u.WF) (hs : t.shape = u.shape) :
+    0 ≤ t.normsq + u.normsq - 2 * t.dot u := by
+  rw [dist_sq t u ht hu hs]
+  exact boxSum_nonneg _ _ (fun is => mul_self_nonneg _)
+
+/-- **the distance is zero only for equal tensors**: `‖t‖² + ‖u‖² − 2⟨t,u⟩ = 0` iff the two dense arrays agree at
+    every index inside the box `0 ≤ idx_n < shape_n` -/
+theorem distsq_eq_zero_iff (t u : Tensor R) (ht : t.WF) (hu : u.WF) (hs : t.shape = u.shape) :
+    t.normsq + u.normsq - 2 * t.dot u = 0 ↔ ∀ idx, inShape idx t.shape → t.dense idx = u.dense idx := by
+  rw [dist_sq t u ht hu hs, boxSum_eq_zero_iff _ _ (fun is => mul_self_nonneg _)]
+  constructor
+  · intro h idx hi
+    have := h idx hi
+    exact sub_eq_zero.mp (mul_self_eq_zero.mp this)
+  · intro h idx hi
+    rw [h idx hi, sub_self, mul_zero]
+
+end metric
+
+/-! ### over ℝ: `tn.dist = sqrt(clamp(‖t‖² + ‖u‖² − 2⟨t,u⟩, 0))` itself (metrics.py:131-133) -/
+section real
+
+/-- `tn.dist(t, u)` is the Euclidean distance of the dense arrays -/
+theorem dist_real (t u : Tensor ℝ) (ht : t.WF) (hu : u.WF) (hs : t.shape = u.shape) :
+    Real.sqrt (max (t.normsq + u.normsq - 2 * t.dot u) 0) =
+      Real.sqrt (boxSum t.shape (fun idx => (t.dense idx - u.dense idx) * (t.dense idx - u.dense idx))) := by
+  rw [max_eq_left (distsq_nonneg t u ht hu hs), dist_sq t u ht hu hs]
+
+/-- `tn.dist` is symmetric -/
+theorem dist_real_symm (t u : Tensor ℝ) (ht : t.WF) (hu : u.WF) (hs : t.shape = u.shape) :
+    Real.sqrt (max (t.normsq + u.normsq - 2 * t.dot u) 0) = Real.sqrt (max (u.normsq + t.normsq - 2 * u.dot t) 0) := by
+  rw [distsq_symm t u ht hu hs]
+
+/-- `tn.dist(t, u) = 0` iff the dense arrays agree at every index inside the box -/
+theorem dist_real_eq_zero_iff (t u : Tensor ℝ) (ht : t.WF) (hu : u.WF) (hs : t.shape = u.shape) :
+    Real.sqrt (max (t.normsq + u.normsq - 2 * t.dot u) 0) = 0 ↔ ∀ idx, inShape idx t.shape → t.dense idx = u.dense idx := by
+  rw [max_eq_left (distsq_nonneg t u ht hu hs), Real.sqrt_eq_zero (distsq_nonneg t u ht hu hs)]
+  exact distsq_eq_zero_iff t u ht hu hs
+
+end real
+
+/-! ### non-vacuity of the hypotheses (a mixed-format 2-mode tensor over ℚ; `C02.exT`, `C02.exU` over ℤ) -/
+section nonvacuous
+
+/-- TT core with a (wider-than-tall) Tucker factor, then a CP factor; shape `[2, 2]` -/
+def exQ : Tensor ℚ :=
+  [ { core := .tt 1 3 2 (fun _ j b => (j : ℚ) + b), U := some { rows := 2, cols := 3, f := fun i j => (i : ℚ) - j } },
+    { core := .cp 2 2 (fun j k => (j : ℚ) * 2 + k), U := Option.none } ]
+
+theorem exQ_wf : exQ.WF := by
+  simp [exQ, Tensor.WF, Tensor.WFfrom, TMode.ok, Core.rl, Core.rr, Core.spatial]
+theorem exT_wf : C02.exT.WF := by
+  simp [C02.exT, Tensor.WF, Tensor.WFfrom, TMode.ok, Core.rl, Core.rr, Core.spatial]
+theorem exU_wf : C02.exU.WF := by
+  simp [C02.exU, Tensor.WF, Tensor.WFfrom, TMode.ok, Core.rl, Core.rr, Core.spatial]
+theorem exTU_shape : C02.exT.shape = C02.exU.shape := by
+  simp [C02.exT, C02.exU, Tensor.shape, TMode.n, Core.spatial]
+theorem exQ_margs : margsFit exQ.shape [some (2, fun i => (i : ℚ) + 1), Option.none] := by
+  simp [margsFit, exQ, Tensor.shape, TMode.n]
+theorem exQ_margs2 : margsFit exQ.shape
+    (([(2, fun i => (i : ℚ) + 1), (2, fun i => 3 - (i : ℚ))] : List (Nat × (Nat → ℚ))).map some) := by
+  simp [margsFit, exQ, Tensor.shape, TMode.n]
+
+example := sum_all exQ exQ_wf
+example := sum_removes_modes exQ exQ_wf [true, false] rfl rfl
+example := getitem_squeeze (exQ.sumKeep [false, true]) (sumKeep_wf_shape exQ exQ_wf _).1 [false, true] rfl
+  (by rw [(sumKeep_wf_shape exQ exQ_wf _).2]; exact flaggedOne_oneShape _ _)
+theorem exQ_pos : ∀ n ∈ exQ.shape, 0 < n := by simp [exQ, Tensor.shape, TMode.n]
+example := meanKeep_dense exQ exQ_wf [false, true] rfl rfl
+example := mean_dense exQ exQ_wf exQ_pos
+example := mean_subset_dense exQ exQ_wf [false, true] rfl rfl rfl
+example := mean_raises ([{ core := .tt 1 0 1 (fun _ _ _ => 0), U := Option.none }] : Tensor ℚ) [true] rfl
+example := var_raises ([{ core := .tt 1 0 1 (fun _ _ _ => 0), U := Option.none }] : Tensor ℚ) (by simp [Tensor.shape, TMode.n, Core.spatial])
+example := meanMargKeep_dense exQ exQ_wf [true, false] _ exQ_margs [0, 1] rfl rfl
+example := mean_marginals_dense exQ exQ_wf _ exQ_margs
+example := mean_marginals_subset_dense exQ exQ_wf [true, false] _ exQ_margs rfl rfl
+example := var_dense exQ exQ_wf exQ_pos
+example := var_marginals_dense exQ exQ_wf _ rfl exQ_margs2
+example := distsq_symm C02.exT C02.exU exT_wf exU_wf exTU_shape
+example := distsq_eq_normsq_sub C02.exT C02.exU exT_wf exU_wf exTU_shape
+example := distsq_nonneg C02.exT C02.exU exT_wf exU_wf exTU_shape
+example := distsq_eq_zero_iff C02.exT C02.exU exT_wf exU_wf exTU_shape
+
+end nonvacuous
 
 end TN.C06
